@@ -445,10 +445,13 @@ Definition downsample (X : mat) (y : list Z) (n : option Z) (reshuffle : bool) (
        (double rounding may land on either side);
      * non-decreasing requested percents give non-decreasing cut points. *)
 Definition qclose (a b : Q) : bool := Qle_bool (a - b) eps9 && Qle_bool (b - a) eps9.
+(* two decision values that differ by a few units in the last place of a double (relative gap <= 1e-15) are a tie for the
+   interpolation: the rounded cut point may coincide with the upper one *)
+Definition near_tie (x y : Z) : bool := 10 ^ 15 * (y - x) <=? Z.abs x + Z.abs y.
 Definition bracket (s : list Z) (a : Z) (c : Q) : bool :=
   let a' := Z.min (a + 1) (lenZ s - 1) in
   Qle_bool (inject_Z (nthZ s a)) c && Qle_bool c (inject_Z (nthZ s a')) &&
-  (qlt_bool c (inject_Z (nthZ s a')) || (nthZ s a' <=? nthZ s a)).
+  (qlt_bool c (inject_Z (nthZ s a')) || (nthZ s a' <=? nthZ s a) || near_tie (nthZ s a) (nthZ s a')).
 Definition cut_ok (s : list Z) (pc c : Q) : bool :=
   let vi := (inject_Z (lenZ s - 1) * (pc / 100))%Q in
   let j := Qfloor vi in
